@@ -42,6 +42,20 @@ def encReqs (r : Option (List (List (String × List String)))) : J :=
 def script (q : J) : List Bool := (q.getArr "script").map fun b => match b with | .bool false => false | _ => true
 def cb (q : J) : Bool := match q.get? "cb" with | some (.bool false) => false | _ => true
 
+/-- the override rule of the Spec, when every parameter reference designates a shared parameter:
+    key -> tag of the effective parameter; `allResolve` says whether the rule applies -/
+def specParams (x : Params.Ext) (d pi : J) (op : Option J) : List (String × J) :=
+  match op with
+  | none => [("allResolve", .bool true), ("effective", .obj [])]
+  | some o =>
+    let ps := pi.getArr "parameters" ++ o.getArr "parameters"
+    let tgt := Spec.Params.target x.refTokens d
+    let allResolve := ps.all fun p => (tgt p).isSome
+    let keys := ((ps.filterMap tgt).map (Spec.Params.keyOf x.goName)).eraseDups
+    [("allResolve", .bool allResolve),
+     ("effective", .obj (keys.filterMap fun k =>
+        (Spec.Params.effective x.goName x.refTokens d pi o k).map fun p => (k, tagOf p)))]
+
 def evalQuery (f : Facts) (x : Params.Ext) (d q : J) : J :=
   let kind := q.getStr "kind"
   match kind with
@@ -83,12 +97,14 @@ def evalQuery (f : Facts) (x : Params.Ext) (d q : J) : J :=
           ("spec", mkStrs (sortStrs (names.eraseDups.filter fun n => match lookup n (d.getObj "securityDefinitions") with | some (.obj _) => true | _ => false)))]
   | "paramsFor" =>
     let r := Params.safeParamsFor f x d (q.getStr "method") (q.getStr "path") (cb q) (script q)
-    let designated := (Spec.Ops.operationFor d (q.getStr "method") (q.getStr "path")).isSome
-    .obj [("model", encResult r false), ("spec", .obj [("designated", .bool designated)])]
+    let sop := Spec.Ops.operationFor d (q.getStr "method") (q.getStr "path")
+    let pi := (lookup (q.getStr "path") (Doc.pathItems d)).getD .null
+    .obj [("model", encResult r false), ("spec", .obj ([("designated", .bool sop.isSome)] ++ specParams x d pi sop))]
   | "parametersFor" =>
     let r := Params.safeParametersFor f x d (q.getStr "id") (cb q) (script q)
-    let designated := (Spec.Ops.operationForName d (q.getStr "id")).isSome
-    .obj [("model", encResult r true), ("spec", .obj [("designated", .bool designated)])]
+    let sop := Spec.Ops.operationForName d (q.getStr "id")
+    let pi := match sop with | some o => (lookup o.2.1 (Doc.pathItems d)).getD .null | none => .null
+    .obj [("model", encResult r true), ("spec", .obj ([("designated", .bool sop.isSome)] ++ specParams x d pi (sop.map (·.2.2))))]
   | _ => .obj [("error", .str ("unknown query " ++ kind))]
 
 def run (f : Facts) (inp : J) : J :=
